@@ -1586,15 +1586,24 @@ func (s *expSession) seqCheck() {
 			}
 		}
 		if len(pend) > 0 {
-			sum := uint32(0)
-			for k := 0; k < len(pend); k++ {
-				if (byTime && w.At.Before(pend[k].t0)) || (!byTime && i < pend[k].w0) {
-					break
+			// the failed attempts that precede this message; each of them may or may not have moved the
+			// counter, so the jump may be the sum of any of them (not only of the earliest ones: a
+			// refused set and a set whose write failed can follow each other)
+			ne := 0
+			for ne < len(pend) && ne < 12 && !((byTime && w.At.Before(pend[ne].t0)) || (!byTime && i < pend[ne].w0)) {
+				ne++
+			}
+			for mask := 1; mask < 1<<ne; mask++ {
+				sum, last := uint32(0), 0
+				for k := 0; k < ne; k++ {
+					if mask>>k&1 == 1 {
+						sum += pend[k].n
+						last = k
+					}
 				}
-				sum += pend[k].n
-				if w.Msg.Header.Sequence-own == cur+sum && sum != 0 {
+				if sum != 0 && w.Msg.Header.Sequence-own == cur+sum {
 					cur += sum
-					pend = pend[k+1:]
+					pend = pend[last+1:]
 					s.env.Count("probe.sequence_rebased_after_failed_attempt", 1)
 					break
 				}
